@@ -387,7 +387,8 @@ func contains(keys []string, key string) bool {
 }
 
 func validateDocument(doc document.Document) error {
-	if doc.ID() != "" {
+	// of whatever JSON type: a non-string id would otherwise travel on as an ordinary member
+	if _, ok := doc[document.IDProperty]; ok {
 		return errors.New("document must NOT have the id property")
 	}
 
